@@ -34,7 +34,8 @@ def c08(ctx):
     acts = '{"gen", "imp", "der", "set", "copy", "destroy", "login", "trust"}'
     actsp = '{"gen", "imp", "der", "set", "copy", "destroy", "priv", "trust"}'
     actsk = '{"gen", "imp", "der", "set", "copy", "destroy"}'
-    wide = C('{"gen", "imp", "der", "set", "copy", "destroy", "get", "wrap", "login", "trust"}', 3, "full")
+    # (quick: three objects with the small template sets; the full sets are model checked with two objects in the graphs)
+    wide = C('{"gen", "imp", "der", "set", "copy", "destroy", "get", "wrap", "login", "trust"}', 3, "small" if quick else "full")
     if quick:
         graphs = [("c08-full2", C(acts, 2, "full"), ["aes"]),
                   ("c08-priv2", C(actsp, 2, "full"), ["generic"]),
@@ -56,7 +57,7 @@ def c08(ctx):
 def c02(ctx):
     quick = ctx.tier == "quick"
     acts = '{"gen", "imp", "der", "set", "copy", "get", "wrap"}'
-    wide = C('{"gen", "imp", "der", "set", "copy", "destroy", "get", "wrap", "login", "trust"}', 3, "full")
+    wide = C('{"gen", "imp", "der", "set", "copy", "destroy", "get", "wrap", "login", "trust"}', 3, "small" if quick else "full")
     if quick:
         graphs = [("c02-small2", C(acts, 2, "small"), ["aes"]),
                   ("c02-ec", C(acts, 2, "small", '{"enc"}'), ["ecpriv"]),
